@@ -127,20 +127,34 @@ func VerifLemma_C18F_ManagedV1Precedence() {
 		v, ok = refEffectiveOverride(config, opt, other, modA)
 		verifAssert(eq(v, ok, mod), "per-module override beats the top-level default")
 	}
-	// except => disable rule of the governed option for that module
-	if which == 4 || which == 5 {
-		governed := FileOptionJavaPackage
-		if which == 5 {
-			governed = FileOptionGoPackage
-		}
-		n := 0
-		for _, d := range config.Disables() {
-			if d.FullName() == modB && d.FileOption() == governed && d.Path() == "" && d.FieldOption() == FieldOptionUnspecified {
-				n++
-			}
-		}
-		verifAssert(n == 1 && len(config.Disables()) == 1, "an `except` module becomes exactly one disable rule for the governed option")
-	} else {
-		verifAssert(len(config.Disables()) == 0, "no disable rules without `except`")
+	// except => the governed option is disabled for files of that module and for no other file (semantics of the
+	// disable rules, not their number or shape)
+	governed := opt
+	hasExcept := which == 4 || which == 5
+	if which == 4 {
+		governed = FileOptionJavaPackage
 	}
+	if which == 5 {
+		governed = FileOptionGoPackage
+	}
+	disabledFor := func(fileModule string) bool {
+		for _, d := range config.Disables() {
+			if d.FieldOption() != FieldOptionUnspecified {
+				continue
+			}
+			if d.FileOption() != FileOptionUnspecified && d.FileOption() != governed {
+				continue
+			}
+			if d.Path() != "" && d.Path() != "." {
+				continue // a path rule: does not apply to the probe file zz/other.proto unless it names it
+			}
+			if d.FullName() != "" && d.FullName() != fileModule {
+				continue
+			}
+			return true
+		}
+		return false
+	}
+	verifAssert(disabledFor(modB) == hasExcept, "an `except` module has the governed option disabled")
+	verifAssert(!disabledFor(modA) && !disabledFor(""), "files of other modules are not disabled")
 }
